@@ -756,6 +756,9 @@ class _GzipMessageDelegate(httputil.HTTPMessageDelegate):
         start_line: httputil.RequestStartLine | httputil.ResponseStartLine,
         headers: httputil.HTTPHeaders,
     ) -> Awaitable[None] | None:
+        # This method is called once per message, including 1xx interim
+        # responses: only the headers of the current message count.
+        self._decompressor = None
         if headers.get("Content-Encoding", "").lower() == "gzip":
             self._decompressor = GzipDecompressor()
             # Downstream delegates will only see uncompressed data,
